@@ -12,7 +12,7 @@
    integration itself (Fubini) is not formalised: no multivariate integration library is installed. *)
 From Coq Require Import Permutation.
 From mathcomp Require Import all_ssreflect all_algebra.
-From GT Require Import Tensor DetExec LogDom Obj Factor Measure Pdf Cond EvalLemmas Spec C01_proofs PdfLemmas C04_proofs C0809_proofs C11_proofs C11_list C11_kalman.
+From GT Require Import Tensor DetExec LogDom Obj Factor Measure Pdf Cond EvalLemmas Spec C01_proofs PdfLemmas C04_proofs C0809_proofs C11_proofs C11_list C11_kalman SPD NonVacuity.
 Import GRing.Theory Num.Theory.
 Local Open Scope ring_scope.
 
@@ -96,7 +96,19 @@ Theorem C11_kalman_one_step_preconditions (s : kstep LS) (p : measure LS) :
   single (ktrans s) p -> marg_pos (ktrans s) p -> post_pos (ktrans s) p ->
   single (kobs s) (kpred s p) -> marg_pos (kobs s) (kpred s p) -> post_pos (kobs s) (kpred s p) -> kok [:: s] p.
 Proof. exact: kok_one. Qed.
+
+(* the side conditions (`obs_ok`, `kok`: shapes fit, the matrices that get inverted are invertible, step by step) hold for EVERY model
+   whose covariances are symmetric positive definite, for any list of observations / time steps -- and concretely: *)
+Theorem C11_side_conditions_from_spd (ss : seq (kstep LS)) (os : seq (obs LS)) (p : measure LS) :
+  pdf_ok p -> uR p = 1%N -> pdf_spd p ->
+  (kspd (uD p) ss -> kok ss p) /\ (ospd (uD p) os -> obs_ok os p).
+Proof. by move=> okp HR Hp; split; [exact: kok_of_spd | exact: obs_ok_of_spd]. Qed.
+Theorem C11_kalman_hypotheses_satisfiable n :
+  pdf_ok (nv_prior LS) /\ uR (nv_prior LS) = 1%N /\ kok (nseq n (KStep (nv_trans LS) (nv_cond LS) (nvy F))) (nv_prior LS).
+Proof. by split; [exact: nv_prior_ok | split; [by [] | exact: nv_kokn]]. Qed.
 End C11.
+Print Assumptions C11_side_conditions_from_spd.
+Print Assumptions C11_kalman_hypotheses_satisfiable.
 Print Assumptions C11_kalman_factorisation.
 Print Assumptions C11_kalman_wellformed.
 Print Assumptions C11_kalman_backward_kernels_normalised.
